@@ -613,8 +613,16 @@ class Val:
         if a.kind == "bool" and b.kind == "bool":
             return Val("bool", T.or_(T.and_(c.re, a.re), T.and_(T.not_(c.re), b.re)))
         if a.kind != b.kind:
-            # lin 0 vs log etc. cannot be merged
-            raise Unsupported(f"where over {a.kind}/{b.kind}")
+            # a 'lin' number merged with a log-form value lives in the same (log-space) tensor: it
+            # denotes a logarithm itself, c = log(exp(c))
+            if a.kind == "lin" and b.kind == "log" and a.im is None:
+                e = a.exp()
+                a = Val("log", e.re, e.im, e.mu)
+            elif b.kind == "lin" and a.kind == "log" and b.im is None:
+                e = b.exp()
+                b = Val("log", e.re, e.im, e.mu)
+            else:
+                raise Unsupported(f"where over {a.kind}/{b.kind}")
         if (a.im is None) != (b.im is None):
             a, b = a.to_complex(), b.to_complex()
         if a.mu != b.mu:
